@@ -40,7 +40,7 @@ ASSUMPTIONS = [
     "the endpoint never reuses an id for a different packet; out-of-order arrival is by at most the skipped ids",
     "packet-id wrap-around is out of scope (documented TODO in the code)",
 ]
-MUST_REACH = {"circuit_pings_naming_the_next_id": 50, "states": 500, "evictions_observed": 10, "reverse_after_later_injection": 10, "out_of_order_sends": 10,
+MUST_REACH = {"circuit_histories_starting_in_the_upper_id_range": 5, "circuit_pings_naming_the_next_id": 50, "states": 500, "evictions_observed": 10, "reverse_after_later_injection": 10, "out_of_order_sends": 10,
               "resends_checked": 10, "law_evaluations": 10000, "circuit_forwarded": 100, "circuit_proxy_packets": 50,
               "circuit_replays_of_sent_messages": 10, "circuit_endpoint_resends": 5, "circuit_socket_failures": 20, "circuit_first_sightings_flagged_resent": 50,
               "long_history_injections": 1100, "long_history_probes": 100, "long_history_probes_after_eviction": 50}
@@ -292,7 +292,10 @@ def circuit_history(ctx, rng, steps):
     circ = ProxiedCircuit(("10.0.0.1", 1), ("10.1.0.1", 2), tr)
     injected, first, wires = set(), {}, {}      # proxy's wire ids; original -> wire id; wire id -> logical packet
     went_out = []                               # message objects that were sent (for replays)
-    next_orig, path = rng.choice([0, 1]), []
+    # (endpoints number from wherever they like: a fresh tracker may see ids in the upper half of the 32-bit range first)
+    next_orig, path = rng.choice([0, 1, 1, 0, 2 ** 31 - 3, 2 ** 31 + 5, 3_000_000_000]), []
+    if next_orig > 2 ** 30:
+        ctx.count("circuit_histories_starting_in_the_upper_id_range")
 
     def mk(packet_id, flags=0):
         return Message("CompletePingCheck", Block("PingID", PingID=packet_id is not None and packet_id % 256 or 0),
